@@ -43,12 +43,25 @@ Theorem C16_field_never_panics : forall o a b p,
 Proof. exact field_never_panics. Qed.
 Print Assumptions C16_field_never_panics.
 
-(* bounded work: a shift never materialises a power of two beyond the operand
-   or mask width *)
-Theorem C16_shift_bounded_work : forall l r p k,
-  0 <= l ->
-  (shl_built r p = Some k -> 0 <= k < radix_len p) /\
-  (shr_built l r = Some k -> 0 <= k < bits l).
+(* bounded work of `<<` and `>>` (third audit: the former statement was about two
+   definitions that copied the guard).  Model.Field.shift_w is the mutual recursion
+   shift_l <-> shift_r AS WRITTEN (a Fixpoint on fuel; its leaves are shl_direct /
+   shr_direct themselves), instrumented with the calls it makes, the exponent of the
+   power of two it materialises and the bit size of the largest value computed from
+   it.  For EVERY modulus p > 0 and ALL integers l, r (negative and non-canonical
+   ones included) and every fuel >= 2: its value is the shift_l / shift_r of the
+   refinement theorems, the recursion ends (no OutOfFuel) after at most two calls, a
+   power 2^k is built only for a k below the mask width or the operand's bit size
+   (and k is the count or p - count), and no intermediate value exceeds
+   bits(l) + bits(p) bits: the work is bounded by the bit sizes, never by the count. *)
+Theorem C16_shift_bounded_work : forall fuel (left : bool) l r p,
+  0 < p -> (2 <= fuel)%nat ->
+  fst (shift_w fuel left l r p) = (if left then shift_l l r p else shift_r l r p) /\
+  fst (shift_w fuel left l r p) <> OutOfFuel /\
+  (1 <= sw_calls (snd (shift_w fuel left l r p)) <= 2)%nat /\
+  (forall k, sw_built (snd (shift_w fuel left l r p)) = Some k ->
+     0 <= k < 2 ^ 64 /\ k < Z.max (radix_len p) (bits l) /\ (r = k \/ r = p - k)) /\
+  0 <= sw_bits (snd (shift_w fuel left l r p)) <= bits l + radix_len p.
 Proof. exact shift_bounded_work. Qed.
 Print Assumptions C16_shift_bounded_work.
 
@@ -155,6 +168,18 @@ Theorem C16_reducing_functions_on_any_integers : forall o a b p,
 Proof. exact eval_reduces_operands. Qed.
 Print Assumptions C16_reducing_functions_on_any_integers.
 
+(* ... and every function except `**` and the shifts answers canonically whatever
+   integers it is given - negative ones, literals at and above p - including the five
+   of the eight non-reducing functions (div, complement, |, &, ^) for which
+   C16_reducing_functions_on_any_integers says nothing (third audit: no theorem spoke
+   about them outside [0,p)).  Which value that is, the property fixes for field
+   elements only.  `>>` is excluded with reason: shr_direct answers l / 2^k unreduced. *)
+Theorem C16_canonical_on_any_integers : forall o a b p c,
+  1 < p -> o <> OPow -> o <> OShl -> o <> OShr ->
+  eval o a b p = Ok c -> 0 <= c < p.
+Proof. exact eval_canonical_any_integers. Qed.
+Print Assumptions C16_canonical_on_any_integers.
+
 (* ---- bounded work of `**`: the multiplication sequence of the library's
    windowed modular exponentiation (Model.FieldPow) ---- *)
 
@@ -197,6 +222,19 @@ Example C16_pass_loop_witness :
   exists x, propagate_lit 7 (LInfix IAdd (LInfix IMul (LNum 3) (LNum 4)) (LPrefix PNeg (LNum 2))) = Ok x /\
             expr_val x = Some (VField 3).
 Proof. split; [vm_compute; reflexivity|]. split; [vm_compute; reflexivity|]. eexists. split; vm_compute; reflexivity. Qed.
+
+(* the shift recursion really recurs (one unit of fuel does not suffice for a backward count, two
+   do), builds 2^1 for `5 << 6 (mod 7)` = `5 >> 1`, nothing for a count of 10^11, and a right shift
+   of an operand that is no field element is answered unreduced (why C16_canonical_on_any_integers
+   excludes the shifts) *)
+Example C16_shift_work_witnesses :
+  fst (shift_w 1 true 5 6 7) = OutOfFuel /\
+  shift_w 2 true 5 6 7 = (Ok 2, {| sw_calls := 2; sw_built := Some 1; sw_bits := 2 |}) /\
+  shift_w 2 true 1 100000000000 21888242871839275222246405745257275088548364400416034343698204186575808495617
+    = (Ok 0, {| sw_calls := 1; sw_built := None; sw_bits := 0 |}) /\
+  shift_w 64 false (-5) (-3) 7 = (Err EDivisionByZero, {| sw_calls := 1; sw_built := None; sw_bits := 0 |}) /\
+  eval OShr 100 1 7 = Ok 50 /\ eval OBor (-1) 100 7 = Ok 6.
+Proof. vm_compute. repeat split; reflexivity. Qed.
 
 Example C16_witnesses :
   eval OMod 5 0 7 = Err EDivisionByZero /\
